@@ -682,8 +682,14 @@ def build_world(cfg):  # noqa: PLR0915, C901
         return {}
     prov.start_all(start_rtsample_loop=False, shared_http_server=psrv)
     # no background activity: housekeeping of subscription managers, alarm self check, SCO worker threads
-    for mgr in prov._subscriptions_managers.values():
-        mgr._run_housekeeping_thread = False
+    for _attempt in range(5):          # the thread sets the flag to True when it starts: repeat until it is gone
+        alive = [m for m in prov._subscriptions_managers.values() if m._housekeeping_thread.is_alive()]
+        if not alive:
+            break
+        for mgr in alive:
+            mgr._run_housekeeping_thread = False
+        for mgr in alive:
+            mgr._housekeeping_thread.join(timeout=2.5)
     stopped = 0
     for product in prov.product_lookup.values():
         for obj in list(vars(product).values()) + [x for v in vars(product).values() if isinstance(v, (list, tuple)) for x in v]:
@@ -746,6 +752,7 @@ def build_world(cfg):  # noqa: PLR0915, C901
     cons.start_all(shared_http_server=csrv)
     W.subs = list(cons.subscription_mgr.subscriptions.values())
     cons.subscription_mgr._run = False     # no renew thread activity (the manager is not stopped: that would clear the list)
+    cons.subscription_mgr.join(timeout=5)
     for inst in csrv.dispatcher._instances.values():
         if isinstance(inst, MessageConverterMiddleware):
             instrument(inst)
